@@ -2,6 +2,7 @@ package sim
 
 import (
 	"fmt"
+	"os"
 	"reflect"
 	"runtime"
 	"strings"
@@ -81,7 +82,11 @@ func (s *Sched) anyLocked() bool {
 // AnyLocked reports whether a watched segment mutex is currently held.
 //
 //go:norace
-func (s *Sched) AnyLocked() bool { return s.anyLocked() }
+func (s *Sched) AnyLocked() bool { return !noLockCheck && s.anyLocked() }
+
+// noLockCheck (ICESIM_NO_LOCKCHECK=1) disables the lock invariant so that the
+// hang detector - the backstop behind it - can be exercised on its own.
+var noLockCheck = os.Getenv("ICESIM_NO_LOCKCHECK") != ""
 
 // Cur returns the id of the running task (0 outside Run).
 //
